@@ -183,7 +183,8 @@ impl Heap {
     pub open spec fn wf(&self) -> bool {
         &&& self.has(self.cur)
         &&& (self.has(ROOT_TID@) ==> (if st_terminal(self.st(ROOT_TID@)) { self.proc_state == self.st(ROOT_TID@) } else { !st_terminal(self.proc_state) }))
-        &&& forall|t: Tid| #[trigger] self.has(t) ==> (self.tasks[t].err is Some ==> self.st(t) is Error) && (self.tasks[t].node.s_kind() == NodeKind::Workflow ==> t == ROOT_TID@)
+        &&& forall|t: Tid| #[trigger] self.has(t) ==> (self.tasks[t].err is Some ==> self.st(t) is Error) && (self.tasks[t].node.s_kind() == NodeKind::Workflow <==> t == ROOT_TID@)
+            && (self.tasks[t].revived > 0 ==> catch_flag(self.tasks[t]))
         // a task is created after its prev task (process.rs create_task): prev links are acyclic
         &&& forall|t: Tid| #[trigger] self.has(t) ==> self.tasks[t].seq < self.next_seq && prev_in(*self, t)
         &&& forall|t: Tid, p: Tid| #[trigger] self.has(t) && #[trigger] self.has(p) && self.tasks[t].prev == Some(p) ==> self.tasks[p].seq < self.tasks[t].seq
@@ -195,8 +196,9 @@ impl Heap {
 // ---- lifecycle relations (oracle: property C02) -----------------------------------------
 pub open spec fn legal(a: TaskState, b: TaskState) -> bool { a == b || (!st_terminal(a) && st_rank(a) <= st_rank(b)) }
 // the single exception: an error taken by a matching catch puts the task back to running, once
+pub open spec fn catch_flag(t: TaskAbs) -> bool { t.flags.dom().contains(consts::IS_CATCH_PROCESSED@) && t.flags[consts::IS_CATCH_PROCESSED@] }
 pub open spec fn catch_revive(t: TaskAbs, s: TaskState) -> bool {
-    t.state is Error && s is Running && t.revived == 0 && t.flags.dom().contains(consts::IS_CATCH_PROCESSED@) && t.flags[consts::IS_CATCH_PROCESSED@]
+    t.state is Error && s is Running && t.revived == 0 && catch_flag(t)
 }
 // what may happen to one task over any number of steps (transitive, reflexive)
 pub open spec fn task_fwd(a: TaskAbs, b: TaskAbs) -> bool {
@@ -273,7 +275,7 @@ impl Task {
         requires h.has(self.id@) ensures r == h.tasks[self.id@].err { unimplemented!() }
     #[verifier::external_body]
     pub fn start_time(&self, Tracked(h): Tracked<&Heap>) -> (r: i64)
-        requires h.has(self.id@) ensures r as int == h.tasks[self.id@].start_time { unimplemented!() }
+        requires h.has(self.id@) ensures r as int == h.tasks[self.id@].start_time, 0 <= r { unimplemented!() }
     #[verifier::external_body]
     pub fn prev(&self, Tracked(h): Tracked<&Heap>) -> (r: Option<String>)
         requires h.has(self.id@) ensures opt_str(r) == h.tasks[self.id@].prev { unimplemented!() }
@@ -319,7 +321,7 @@ impl Task {
     pub fn set_flag(&self, key: &str, v: bool, Tracked(h): Tracked<&mut Heap>)
         requires old(h).has(self.id@)
         ensures *final(h) == (Heap { tasks: old(h).tasks.insert(self.id@, TaskAbs { flags: old(h).tasks[self.id@].flags.insert(key@, v), ..old(h).tasks[self.id@] }), ..*old(h) }),
-                fwd(*old(h), *final(h)), old(h).wf() ==> final(h).wf(), final(h).cur == old(h).cur,     // consequences (lemma_flag_fwd)
+                fwd(*old(h), *final(h)), old(h).wf() && (key@ != consts::IS_CATCH_PROCESSED@ || v) ==> final(h).wf(), final(h).cur == old(h).cur,     // consequences
     { unimplemented!() }
 
     // children = tasks whose prev link is this task, ordered by timestamp (process.rs: Process::children)
@@ -371,8 +373,9 @@ pub open spec fn set_state_spec(h: Heap, t: Tid, s: TaskState) -> Heap {
         ..h
     }
 }
+// writing variables into the task data does not touch the `$...` flags (ASSUMED: client options / context variables never carry `$` keys)
 pub open spec fn data_written(a: Heap, b: Heap, t: Tid) -> bool {
-    b == (Heap { tasks: a.tasks.insert(t, TaskAbs { data_rev: b.tasks[t].data_rev, flags: b.tasks[t].flags, ..a.tasks[t] }), ..a })
+    b == (Heap { tasks: a.tasks.insert(t, TaskAbs { data_rev: b.tasks[t].data_rev, ..a.tasks[t] }), ..a })
 }
 
 // ---- process / context / scheduler primitives ------------------------------------------------
@@ -466,7 +469,7 @@ pub proof fn lemma_stub_consequences(a: Heap, t: Tid, k: Seq<char>, v: bool, x: 
     ensures
         fwd(a, Heap { cur: t, ..a }) && (a.wf() ==> (Heap { cur: t, ..a }).wf()),
         fwd(a, Heap { tasks: a.tasks.insert(t, TaskAbs { flags: a.tasks[t].flags.insert(k, v), ..a.tasks[t] }), ..a }),
-        a.wf() ==> (Heap { tasks: a.tasks.insert(t, TaskAbs { flags: a.tasks[t].flags.insert(k, v), ..a.tasks[t] }), ..a }).wf(),
+        a.wf() && (k != consts::IS_CATCH_PROCESSED@ || v) ==> (Heap { tasks: a.tasks.insert(t, TaskAbs { flags: a.tasks[t].flags.insert(k, v), ..a.tasks[t] }), ..a }).wf(),
         data_written(a, b2, t) ==> fwd(a, b2) && (a.wf() ==> b2.wf()) && b2.cur == a.cur,
         !a.has(x) ==> fwd(a, Heap { tasks: a.tasks.insert(x, fresh_task(node, prev, a.next_seq)), next_seq: a.next_seq + 1, ..a }),
         !a.has(x) && (x == ROOT_TID@ <==> node.s_kind() == NodeKind::Workflow) && node.s_kind() != NodeKind::Workflow && a.wf() && (prev is Some ==> a.has(prev->Some_0))
@@ -485,19 +488,19 @@ pub proof fn lemma_stub_consequences(a: Heap, t: Tid, k: Seq<char>, v: bool, x: 
     // wf only looks at cur, proc_state, next_seq and (state, err, node, prev, seq) of each task
     let h0 = Heap { cur: t, ..a };
     if a.wf() {
-        assert forall|y: Tid| #[trigger] h0.has(y) implies (h0.tasks[y].err is Some ==> h0.st(y) is Error) && (h0.tasks[y].node.s_kind() == NodeKind::Workflow ==> y == ROOT_TID@) && h0.tasks[y].seq < h0.next_seq && prev_in(h0, y) by { reveal(prev_in); assert(a.has(y)); assert(prev_in(a, y)); }
+        assert forall|y: Tid| #[trigger] h0.has(y) implies (h0.tasks[y].err is Some ==> h0.st(y) is Error) && (h0.tasks[y].node.s_kind() == NodeKind::Workflow <==> y == ROOT_TID@) && (h0.tasks[y].revived > 0 ==> catch_flag(h0.tasks[y])) && h0.tasks[y].seq < h0.next_seq && prev_in(h0, y) by { reveal(prev_in); assert(a.has(y)); assert(prev_in(a, y)); }
         assert forall|y: Tid, p: Tid| #[trigger] h0.has(y) && #[trigger] h0.has(p) && h0.tasks[y].prev == Some(p) implies h0.tasks[p].seq < h0.tasks[y].seq by { reveal(prev_in); assert(a.has(y) && a.has(p)); }
     }
     let h1 = Heap { tasks: a.tasks.insert(t, TaskAbs { flags: a.tasks[t].flags.insert(k, v), ..a.tasks[t] }), ..a };
     assert forall|y: Tid| #[trigger] a.has(y) implies h1.has(y) && task_fwd(a.tasks[y], h1.tasks[y]) by {}
-    if a.wf() {
-        assert forall|y: Tid| #[trigger] h1.has(y) implies (h1.tasks[y].err is Some ==> h1.st(y) is Error) && (h1.tasks[y].node.s_kind() == NodeKind::Workflow ==> y == ROOT_TID@) && h1.tasks[y].seq < h1.next_seq && prev_in(h1, y) by { reveal(prev_in); assert(a.has(y)); assert(prev_in(a, y)); }
+    if a.wf() && (k != consts::IS_CATCH_PROCESSED@ || v) {
+        assert forall|y: Tid| #[trigger] h1.has(y) implies (h1.tasks[y].err is Some ==> h1.st(y) is Error) && (h1.tasks[y].node.s_kind() == NodeKind::Workflow <==> y == ROOT_TID@) && (h1.tasks[y].revived > 0 ==> catch_flag(h1.tasks[y])) && h1.tasks[y].seq < h1.next_seq && prev_in(h1, y) by { reveal(prev_in); assert(a.has(y)); assert(prev_in(a, y)); }
         assert forall|y: Tid, p: Tid| #[trigger] h1.has(y) && #[trigger] h1.has(p) && h1.tasks[y].prev == Some(p) implies h1.tasks[p].seq < h1.tasks[y].seq by { reveal(prev_in); assert(a.has(y) && a.has(p)); }
     }
     if data_written(a, b2, t) {
         assert forall|y: Tid| #[trigger] a.has(y) implies b2.has(y) && task_fwd(a.tasks[y], b2.tasks[y]) by {}
         if a.wf() {
-        assert forall|y: Tid| #[trigger] b2.has(y) implies (b2.tasks[y].err is Some ==> b2.st(y) is Error) && (b2.tasks[y].node.s_kind() == NodeKind::Workflow ==> y == ROOT_TID@) && b2.tasks[y].seq < b2.next_seq && prev_in(b2, y) by { reveal(prev_in); assert(a.has(y)); assert(prev_in(a, y)); }
+        assert forall|y: Tid| #[trigger] b2.has(y) implies (b2.tasks[y].err is Some ==> b2.st(y) is Error) && (b2.tasks[y].node.s_kind() == NodeKind::Workflow <==> y == ROOT_TID@) && (b2.tasks[y].revived > 0 ==> catch_flag(b2.tasks[y])) && b2.tasks[y].seq < b2.next_seq && prev_in(b2, y) by { reveal(prev_in); assert(a.has(y)); assert(prev_in(a, y)); }
         assert forall|y: Tid, p: Tid| #[trigger] b2.has(y) && #[trigger] b2.has(p) && b2.tasks[y].prev == Some(p) implies b2.tasks[p].seq < b2.tasks[y].seq by { reveal(prev_in); assert(a.has(y) && a.has(p)); }
         }
     }
@@ -505,26 +508,26 @@ pub proof fn lemma_stub_consequences(a: Heap, t: Tid, k: Seq<char>, v: bool, x: 
         let h2 = Heap { tasks: a.tasks.insert(x, fresh_task(node, prev, a.next_seq)), next_seq: a.next_seq + 1, ..a };
         assert forall|y: Tid| #[trigger] a.has(y) implies h2.has(y) && task_fwd(a.tasks[y], h2.tasks[y]) by {}
         if a.wf() && (x == ROOT_TID@ <==> node.s_kind() == NodeKind::Workflow) && node.s_kind() != NodeKind::Workflow && (prev is Some ==> a.has(prev->Some_0)) {
-        assert forall|y: Tid| #[trigger] h2.has(y) implies (h2.tasks[y].err is Some ==> h2.st(y) is Error) && (h2.tasks[y].node.s_kind() == NodeKind::Workflow ==> y == ROOT_TID@) && h2.tasks[y].seq < h2.next_seq && prev_in(h2, y) by { reveal(prev_in); if y != x { assert(a.has(y)); assert(prev_in(a, y)); } }
+        assert forall|y: Tid| #[trigger] h2.has(y) implies (h2.tasks[y].err is Some ==> h2.st(y) is Error) && (h2.tasks[y].node.s_kind() == NodeKind::Workflow <==> y == ROOT_TID@) && (h2.tasks[y].revived > 0 ==> catch_flag(h2.tasks[y])) && h2.tasks[y].seq < h2.next_seq && prev_in(h2, y) by { reveal(prev_in); if y != x { assert(a.has(y)); assert(prev_in(a, y)); } }
         assert forall|y: Tid, p: Tid| #[trigger] h2.has(y) && #[trigger] h2.has(p) && h2.tasks[y].prev == Some(p) implies h2.tasks[p].seq < h2.tasks[y].seq by { reveal(prev_in); if y != x { assert(a.has(y)); assert(prev_in(a, y)); assert(p != x); assert(a.has(p)); } else { assert(p != x); assert(a.has(p)); } }
         }
     }
     let h3 = Heap { queue: a.queue.push(t), ..a };
     if a.wf() {
-        assert forall|y: Tid| #[trigger] h3.has(y) implies (h3.tasks[y].err is Some ==> h3.st(y) is Error) && (h3.tasks[y].node.s_kind() == NodeKind::Workflow ==> y == ROOT_TID@) && h3.tasks[y].seq < h3.next_seq && prev_in(h3, y) by { reveal(prev_in); assert(a.has(y)); assert(prev_in(a, y)); }
+        assert forall|y: Tid| #[trigger] h3.has(y) implies (h3.tasks[y].err is Some ==> h3.st(y) is Error) && (h3.tasks[y].node.s_kind() == NodeKind::Workflow <==> y == ROOT_TID@) && (h3.tasks[y].revived > 0 ==> catch_flag(h3.tasks[y])) && h3.tasks[y].seq < h3.next_seq && prev_in(h3, y) by { reveal(prev_in); assert(a.has(y)); assert(prev_in(a, y)); }
         assert forall|y: Tid, p: Tid| #[trigger] h3.has(y) && #[trigger] h3.has(p) && h3.tasks[y].prev == Some(p) implies h3.tasks[p].seq < h3.tasks[y].seq by { reveal(prev_in); assert(a.has(y) && a.has(p)); }
     }
     if a.wf() && (legal(a.st(t), s) || catch_revive(a.tasks[t], s)) && !(t == ROOT_TID@ && a.st(t) is Error && s is Running) {
         let g = set_state_spec(a, t, s);
         assert forall|y: Tid| #[trigger] a.has(y) implies g.has(y) && task_fwd(a.tasks[y], g.tasks[y]) by {}
-        assert forall|y: Tid| #[trigger] g.has(y) implies (g.tasks[y].err is Some ==> g.st(y) is Error) && (g.tasks[y].node.s_kind() == NodeKind::Workflow ==> y == ROOT_TID@) && g.tasks[y].seq < g.next_seq && prev_in(g, y) by { reveal(prev_in); assert(a.has(y)); assert(prev_in(a, y)); }
+        assert forall|y: Tid| #[trigger] g.has(y) implies (g.tasks[y].err is Some ==> g.st(y) is Error) && (g.tasks[y].node.s_kind() == NodeKind::Workflow <==> y == ROOT_TID@) && (g.tasks[y].revived > 0 ==> catch_flag(g.tasks[y])) && g.tasks[y].seq < g.next_seq && prev_in(g, y) by { reveal(prev_in); assert(a.has(y)); assert(prev_in(a, y)); }
         assert forall|y: Tid, p: Tid| #[trigger] g.has(y) && #[trigger] g.has(p) && g.tasks[y].prev == Some(p) implies g.tasks[p].seq < g.tasks[y].seq by { reveal(prev_in); assert(a.has(y) && a.has(p)); }
     }
     if a.wf() && legal(a.st(t), TaskState::Error) {
         let a1 = Heap { tasks: a.tasks.insert(t, TaskAbs { err: Some(e), ..a.tasks[t] }), ..a };
         let g = set_state_spec(a1, t, TaskState::Error);
         assert forall|y: Tid| #[trigger] a.has(y) implies g.has(y) && task_fwd(a.tasks[y], g.tasks[y]) by {}
-        assert forall|y: Tid| #[trigger] g.has(y) implies (g.tasks[y].err is Some ==> g.st(y) is Error) && (g.tasks[y].node.s_kind() == NodeKind::Workflow ==> y == ROOT_TID@) && g.tasks[y].seq < g.next_seq && prev_in(g, y) by { reveal(prev_in); assert(a.has(y)); assert(prev_in(a, y)); }
+        assert forall|y: Tid| #[trigger] g.has(y) implies (g.tasks[y].err is Some ==> g.st(y) is Error) && (g.tasks[y].node.s_kind() == NodeKind::Workflow <==> y == ROOT_TID@) && (g.tasks[y].revived > 0 ==> catch_flag(g.tasks[y])) && g.tasks[y].seq < g.next_seq && prev_in(g, y) by { reveal(prev_in); assert(a.has(y)); assert(prev_in(a, y)); }
         assert forall|y: Tid, p: Tid| #[trigger] g.has(y) && #[trigger] g.has(p) && g.tasks[y].prev == Some(p) implies g.tasks[p].seq < g.tasks[y].seq by { reveal(prev_in); assert(a.has(y) && a.has(p)); }
     }
 }
@@ -534,7 +537,7 @@ pub proof fn lemma_data_only_fwd(a: Heap, b: Heap)
 {
     assert forall|t: Tid| #[trigger] a.has(t) implies b.has(t) && task_fwd(a.tasks[t], b.tasks[t]) by {}
     if a.wf() {
-        assert forall|y: Tid| #[trigger] b.has(y) implies (b.tasks[y].err is Some ==> b.st(y) is Error) && (b.tasks[y].node.s_kind() == NodeKind::Workflow ==> y == ROOT_TID@) && b.tasks[y].seq < b.next_seq && prev_in(b, y) by { reveal(prev_in); assert(a.has(y)); assert(prev_in(a, y)); }
+        assert forall|y: Tid| #[trigger] b.has(y) implies (b.tasks[y].err is Some ==> b.st(y) is Error) && (b.tasks[y].node.s_kind() == NodeKind::Workflow <==> y == ROOT_TID@) && (b.tasks[y].revived > 0 ==> catch_flag(b.tasks[y])) && b.tasks[y].seq < b.next_seq && prev_in(b, y) by { reveal(prev_in); assert(a.has(y)); assert(prev_in(a, y)); }
         assert forall|y: Tid, p: Tid| #[trigger] b.has(y) && #[trigger] b.has(p) && b.tasks[y].prev == Some(p) implies b.tasks[p].seq < b.tasks[y].seq by { assert(a.has(y) && a.has(p)); }
     }
 }
@@ -591,6 +594,69 @@ impl StoreH {
         ensures *final(h) == (Heap { msg_closed: old(h).msg_closed.push((pid@, tid@, status)), ..*old(h) }), r is Ok,
                 fwd(*old(h), *final(h)), old(h).wf() ==> final(h).wf(), final(h).cur == old(h).cur,     // consequences
     { unimplemented!() }
+}
+// ---- hooks, timeouts
+//@@ extract file=acts/src/model/act/timeout.rs item="enum TimeoutUnit" name=TimeoutUnit
+//@@ opt structural
+//@@ end
+//@@ extract file=acts/src/model/act/timeout.rs item="struct TimeoutLimit" name=TimeoutLimit
+//@@ opt dropderive=Clone,PartialEq
+//@@ end
+pub open spec fn unit_secs(u: TimeoutUnit) -> int { match u { TimeoutUnit::Second => 1, TimeoutUnit::Minute => 60, TimeoutUnit::Hour => 3600, TimeoutUnit::Day => 86400 } }
+// oracle (C19): the configured duration in seconds
+pub open spec fn limit_secs(l: TimeoutLimit) -> int { l.value as int * unit_secs(l.unit) }
+// listed assumption: configured durations are far below the i64 range (|value| <= 10^11 of any unit)
+pub open spec fn limit_small(l: TimeoutLimit) -> bool { -100_000_000_000 <= l.value <= 100_000_000_000 }
+pub uninterp spec fn parse_limit(s: Seq<char>) -> Result<TimeoutLimit>;
+impl TimeoutLimit {
+//@@ extract file=acts/src/model/act/timeout.rs in="impl TimeoutLimit" item="fn as_secs" name=TimeoutLimit::as_secs props=C19
+//@@ opt noghost
+//@@ spec
+    requires limit_small(*self)
+    ensures
+        //# W2-unit-conversion
+        ret as int == limit_secs(*self),
+//@@ end
+    // model/act/timeout.rs: parse = regex `^(.*)(s|m|h|d)$` + i64 parse (regex engine: ASSUMED, uninterpreted result)
+    #[verifier::external_body]
+    pub fn parse(expr: &str) -> (r: Result<TimeoutLimit>) ensures r == parse_limit(expr@) { unimplemented!() }
+}
+// TRUSTED: format!("{}{}", consts::IS_TIMEOUT_PROCESSED_PREFIX, on) (R7)
+#[verifier::external_body]
+pub fn timeout_key(on: &String) -> (r: String) ensures r@ == consts::IS_TIMEOUT_PROCESSED_PREFIX@ + on@ { unimplemented!() }
+// TRUSTED: `&String == &String` compares the characters (R7)
+#[verifier::external_body]
+pub fn str_eq(a: &String, b: &String) -> (r: bool) ensures r == (a@ == b@) { unimplemented!() }
+pub mod utils { pub mod time {
+    use vstd::prelude::*;
+    use super::super::Heap;
+    verus! {
+    // TRUSTED: the clock (chrono): non-negative i64 milliseconds
+    #[verifier::external_body]
+    pub fn time_millis(Tracked(h): Tracked<&Heap>) -> (r: i64) ensures r as int == h.now, 0 <= r { unimplemented!() }
+    }
+} }
+#[verifier::external_body]
+pub struct HooksMap { _p: u8 }
+impl HooksMap {
+    pub uninterp spec fn view(&self) -> Map<TaskLifeCycle, Seq<StatementBatch>>;
+    // R7: `hooks.get(&key).unwrap_or(&default)`
+    #[verifier::external_body]
+    pub fn list(&self, key: &TaskLifeCycle) -> (r: &Vec<StatementBatch>)
+        ensures r@ == (if self@.dom().contains(*key) { self@[*key] } else { Seq::<StatementBatch>::empty() }) { unimplemented!() }
+}
+pub open spec fn hooks_of(h: Heap, t: Tid) -> Map<TaskLifeCycle, Seq<StatementBatch>> {
+    if h.hooks.dom().contains(t) { h.hooks[t] } else { Map::empty() }
+}
+impl Task {
+    // R11: `self.hooks.read().unwrap()`
+    #[verifier::external_body]
+    pub fn hooks_snapshot(&self, Tracked(h): Tracked<&Heap>) -> (r: HooksMap) ensures r@ == hooks_of(*h, self.id@) { unimplemented!() }
+    // R6: `task.with_data(|data| data.get::<bool>(K)).unwrap_or_default()`
+    #[verifier::external_body]
+    pub fn flag_or_false(&self, key: &str, Tracked(h): Tracked<&Heap>) -> (r: bool)
+        requires h.has(self.id@)
+        ensures r == (h.tasks[self.id@].flags.dom().contains(key@) && h.tasks[self.id@].flags[key@]) { unimplemented!() }
 }
 impl Node {
     // tree/node.rs: outputs() = the declared outputs of the node content
